@@ -87,14 +87,30 @@ fn install_panic_hook() {
         };
         let root = repo_root();
         let loc = info.location().map(|l| format!("{}:{}", l.file(), l.line())).unwrap_or_default();
-        let mut site = site_in(&msg, &root).or_else(|| site_in(&loc, &root));
+        let mut site = site_in(&msg, &root);
+        let mut func = String::new();
         if site.is_none() {
+            // the innermost frame of the repository under test: its file:line is the site, its symbol the
+            // function (line numbers move when the file is edited, the function name does not)
             let bt = std::backtrace::Backtrace::force_capture().to_string();
-            site = site_in(&bt, &root);
+            let pat = format!("{}/src/", root.trim_end_matches('/'));
+            let lines: Vec<&str> = bt.lines().collect();
+            for (i, l) in lines.iter().enumerate() {
+                if l.trim_start().starts_with("at ") && l.contains(&pat) && i > 0 {
+                    site = site_in(l, &root);
+                    let sym = lines[i - 1].trim();
+                    let sym = sym.split_once(": ").map(|x| x.1).unwrap_or(sym);
+                    func = sym.replace("::{{closure}}", "").to_string();
+                    break;
+                }
+            }
+            if site.is_none() {
+                site = site_in(&loc, &root);
+            }
         }
         let site = site.unwrap_or_else(|| format!("ext:{loc}"));
         let thread = std::thread::current().name().unwrap_or("?").to_string();
-        let v = json!({"msg": msg.chars().take(400).collect::<String>(), "loc": loc, "site": site, "thread": thread});
+        let v = json!({"msg": msg.chars().take(400).collect::<String>(), "loc": loc, "site": site, "func": func, "thread": thread});
         eprintln!("C08-PANIC {v}");
         *LAST_PANIC.lock().unwrap() = Some(v);
     }));
@@ -343,7 +359,7 @@ fn console(puppet: &str, pargs: &[String]) {
                 let mut res = match parsed {
                     Err(_) => {
                         let p = LAST_PANIC.lock().unwrap().take().unwrap_or(json!({}));
-                        json!({"r": "panic", "stage": "parse", "msg": p["msg"], "site": p["site"], "loc": p["loc"]})
+                        json!({"r": "panic", "stage": "parse", "msg": p["msg"], "site": p["site"], "func": p["func"], "loc": p["loc"]})
                     }
                     Ok(Err(e)) => err_json(&e, "parse"),
                     Ok(Ok(cmd)) => {
@@ -415,7 +431,7 @@ fn console(puppet: &str, pargs: &[String]) {
                             }
                         }
                         let mut v = match (r, caught.take()) {
-                            (_, Some(p)) => json!({"r": "panic", "stage": "handle", "msg": p["msg"], "site": p["site"], "loc": p["loc"]}),
+                            (_, Some(p)) => json!({"r": "panic", "stage": "handle", "msg": p["msg"], "site": p["site"], "func": p["func"], "loc": p["loc"]}),
                             (Ok(()), None) => json!({"r": "ok", "stage": "handle", "text": clip(&buf.borrow(), 300)}),
                             (Err(e), None) => err_json(&e, "handle"),
                         };
@@ -658,6 +674,7 @@ fn dap(puppet: &str) {
     let e2 = ended.clone();
     std::thread::Builder::new()
         .name("sess".into())
+        .stack_size(8 << 20) // the adapter runs its session on the main thread: same stack as there
         .spawn(move || {
             let r = catch(|| DebugSession::new(io).run(vec![]));
             let res = match r {
